@@ -156,6 +156,10 @@ class Ctx:
                     script = None
             if b["kind"] == "render-error":
                 raise sv.ToolError("renderer failed on %s: %s" % (b["key"], b.get("error")))
+            if b["kind"] == "crash":
+                self.violation("the interpreter crashed (%s) on a generated program (%s %s)"
+                               % (b.get("detail"), name, b["key"]), script=script, detail=b, prop="C02")
+                continue
             if b["kind"] == "stderr-form":
                 self.violation("malformed diagnostic (%s %s): %s" % (name, b["key"], b.get("detail")),
                                script=script, detail=b, prop="C17" if self.prop != "C03" else "C03")
@@ -257,9 +261,18 @@ def corpus_validate(ctx, scripts, name, prop=None):
                                      "distinct_states": st["distinct"],
                                      "states_generated": st["generated"]}
     n = 0
+    # specification-independent: no run may crash, whatever the program
+    for i, (so, se, code) in enumerate(runs):
+        cr = sv.crashed(se, code)
+        if cr and cr != "timeout":
+            ctx.violation("the interpreter crashed (%s) on %s" % (cr, scripts[i][0]), script=scripts[i][1],
+                          detail={"stderr": se.decode(errors="replace")[-2000:], "exit": code}, prop="C02")
+    ctx.evaluations += len(runs)
     for i, o in zip(idx, outs):
         label, text = scripts[i]
         so, se, code = runs[i]
+        if sv.crashed(se, code):
+            continue
         if o is None or o["status"]["k"] not in ("done", "failed"):
             ctx.skip("no outcome within fuel")
             continue
@@ -268,6 +281,9 @@ def corpus_validate(ctx, scripts, name, prop=None):
                          and o["status"]["diag"]["msg"][5]["n"] == 0):
             # the evaluator model's integers are narrower than the implementation's
             ctx.skip("overflow of the model's 31-bit range (covered by C06)")
+            continue
+        if code is None:
+            ctx.skip("real run exceeded the time limit (not compared)")
             continue
         exp = sv.expected(o, names[i])
         form = sv.stderr_form(se, names[i], code)
@@ -297,6 +313,51 @@ def random_scripts(seed, n, layout=True, **kw):
         body = randprog.program(seed * 1000003 + i, **kw)
         text, _, _ = R.render(body, (seed * 7919 + i) if layout else None)
         out.append(("random#%d/%d" % (seed, i), text))
+    return out
+
+
+_TOK = re.compile(r'''\$?"(?:\\\\.|[^"\\\\])*"|[A-Za-z_][A-Za-z_0-9]*|[0-9][0-9_]*|===|!==|:=|==|!=|<=|>=|&&|\|\||\+=|-=|\*=|/=|%=|->|\.\.|#[^\n]*|\s+|.''', re.S)
+_OPS = ["+", "-", "*", "/", "%", "==", "!=", "<", "<=", ">", ">=", "&&", "||", "===", "!==", "..",
+        "=", ":=", "+=", "-=", "*=", "/=", "%="]
+
+
+def mutants(scripts, seed, per_script):
+    """Token-level mutations of scripts: delete / duplicate / swap tokens, replace an
+    identifier by another one of the script, an integer by a boundary value, an
+    operator by another operator, a literal by a literal of another kind."""
+    import random
+    rnd = random.Random(seed)
+    out = []
+    for label, text in scripts:
+        toks = _TOK.findall(text)
+        sig = [i for i, t in enumerate(toks) if not t.isspace() and not t.startswith("#")]
+        if len(sig) < 2:
+            continue
+        idents = [toks[i] for i in sig if re.match(r"[A-Za-z_]", toks[i])] or ["x"]
+        for m in range(per_script):
+            ts = list(toks)
+            for _ in range(rnd.choice([1, 1, 2])):
+                i = rnd.choice(sig)
+                kind = rnd.randrange(8)
+                t = ts[i]
+                if kind == 0:
+                    ts[i] = ""
+                elif kind == 1:
+                    ts[i] = t + " " + t
+                elif kind == 2:
+                    j = rnd.choice(sig)
+                    ts[i], ts[j] = ts[j], ts[i]
+                elif kind == 3 and re.match(r"[A-Za-z_]", t):
+                    ts[i] = rnd.choice(idents)
+                elif kind == 4 and t[:1].isdigit():
+                    ts[i] = rnd.choice(["0", "1", "9223372036854775807", "2", "100"])
+                elif kind == 5 and t in _OPS:
+                    ts[i] = rnd.choice(_OPS)
+                elif kind == 6:
+                    ts[i] = rnd.choice(["null", "true", "0", '"s"', "[]", "{}", "[1, 2]", '{"a": 1}', "print"])
+                else:
+                    ts[i] = rnd.choice(["(", ")", "[", "]", "{", "}", ",", ".", ";", "\n"]) + t
+            out.append(("%s~m%d" % (label, m), "".join(ts)))
     return out
 
 
@@ -552,7 +613,26 @@ def c01(ctx):
                                         max_stmts=30 if ctx.quick else 40), "c01random")
 
 
+def c02(ctx):
+    nm = 3 if ctx.quick else 40
+    ctx.rule = ("12 alias shapes (same container twice, self-containing, inside its comparand, mutual, shared child, "
+                "two self-containing, deep self, object self / mixed / same, nested) x 24 hazard operations x 3 "
+                "operand orders; / and %% with zero divisor and zero dividend in plain and three op-assign forms; "
+                "every one replayed (predicted outcome) and checked by the specification-independent crash oracle "
+                "(exit 101, signal, panic text); plus %d token-level mutants per repository test script that still "
+                "parse, and seeded random programs, under the crash oracle and, when inside the model, validated "
+                "against the specification; non-trivial = alias / zero cases and mutants that reach evaluation"
+                % nm)
+    out = ctx.run_model("MC_C02", "C02Params", invariants=["ZeroRule"], props=FRAME_PROPS + ["BuildFresh"])
+    ctx.replay(out, "c02", seeds=(None,) if ctx.quick else (None, ctx.seed))
+    ms = mutants(repo_test_scripts(), ctx.seed, nm)
+    corpus_validate(ctx, ms, "c02mutants")
+    corpus_validate(ctx, random_scripts(ctx.seed + 17, 200 if ctx.quick else 3000, err_rate=0.06), "c02random")
+    ctx.notes.append("extreme 64-bit integers: see C06; non-ASCII text in literals: see C15")
+
+
 REGISTRY = {
+    "C02": c02,
     "C01": c01,
     "C17": c17,
     "C13": c13,
